@@ -14,19 +14,20 @@ def oracle(c):
     """The property itself on the implementation's observations. Returns list of (key, why)."""
     fails = []
     len_ms = c.get("leniency_ms", 250.0)
+    slack = SLACK_MS + 3 * c.get("stall_ms", 0.0)   # goroutines of the harness process were scheduled this late
     finished_ids = set()
     for o in c["outcomes"]:
         if o["code"] >= 0:
             finished_ids.add(o["id"])
         if o["code"] == 3:
             bound = o["timeout_ms"] + len_ms
-            if o["elapsed_ms"] > bound + SLACK_MS:
+            if o["elapsed_ms"] > bound + slack:
                 fails.append(("timeout-bound-exceeded", "call %d (timeout %.0f ms) returned after %.1f ms > timeout + leniency %.0f ms" % (o["t"], o["timeout_ms"], o["elapsed_ms"], bound)))
             if o["elapsed_ms"] < bound - 5:
                 fails.append(("timeout-too-early", "call %d timed out after %.1f ms < timeout + leniency %.0f ms" % (o["t"], o["elapsed_ms"], bound)))
-    if c.get("cancel_latency_ms", 0) > SLACK_MS:
+    if c.get("cancel_latency_ms", 0) > slack:
         fails.append(("cancel-not-prompt", "a cancelled call returned %.1f ms after the cancellation" % c["cancel_latency_ms"]))
-    if c.get("disconnect_latency_ms", 0) > 2 * SLACK_MS:
+    if c.get("disconnect_latency_ms", 0) > 2 * slack:
         fails.append(("disconnect-not-prompt", "pending calls returned %.1f ms after the disconnect" % c["disconnect_latency_ms"]))
     leaked = sorted(finished_ids & set(c["handlers"]))
     if leaked:
@@ -41,8 +42,16 @@ def oracle(c):
 
 
 def run(ctx):
-    n = 240 if ctx.thorough() else 24
+    n = 240 if ctx.thorough() else 18
     proof_ok, detail = True, {}
+    if ctx.replay:
+        # a replay file names the seed and the scenario; all scenarios are deterministic functions of the seed
+        try:
+            rp = json.load(open(ctx.replay))
+            ctx.seed = int(rp.get("seed", ctx.seed))
+            ctx.log("replaying %s: %s" % (ctx.replay, rp.get("how") or rp.get("broken")))
+        except Exception as e:
+            ctx.log("cannot read replay file: %s" % e)
     ok, out = ctx.regen(["arith", "sendside"])
     if not ok:
         proof_ok = False
@@ -120,6 +129,7 @@ def run(ctx):
         "cases_by_label": labels, "scenario_errors": len(errors),
         "timeouts_observed": len(to), "timeout_overshoot_ms_max": round(max(to), 2) if to else None,
         "timeout_overshoot_ms_min": round(min(to), 2) if to else None,
+        "max_scheduling_stall_ms": max([c.get("stall_ms", 0.0) for c in cases] or [0.0]),
         "forced_schedules": len([c for c in cases if c["scenario"].startswith("c19race-")]),
         "traces_validated_against_impl": len(cases), "model_impl_mismatches": len(mism),
     })
